@@ -389,6 +389,7 @@ class FnTranslator:
         self.oracle_once = set()
         self.constructors = set()
         self.fresh_oracles = set()
+        self.samples = list(spec.get("samples", []))   # random.sample-like: f(xs, k) = k elements at pairwise different indices
         self.picks = list(spec.get("picks", []))       # random.choice-like: f(xs) = xs[k], k a fresh Section variable per call site
         self.fixed = dict(spec.get("fixed", {}))
         for entry in spec.get("oracles", []):
@@ -427,6 +428,7 @@ class FnTranslator:
         self.pre = None
         self.callee_ifaces = []
         self.used_acc, self.used_eq, self.pick_sites, self.skipped = [], [], [], {}
+        self.sample_vars = []
 
     def use(self, op):
         self.used.add(op)
@@ -468,6 +470,8 @@ class FnTranslator:
         # one index variable per call site of a pick function (random.choice(xs) = xs[pick_k])
         for k in sorted(self.pick_sites):
             out.append(("pick_%d" % k, "nat"))
+        for kname in sorted(self.sample_vars):
+            out.append((kname, "nat"))
         return out
 
     @staticmethod
@@ -758,6 +762,50 @@ class FnTranslator:
                 raise self.err("the list %r is stored here inside a loop whose body does not rebind it to a new list "
                                "before modifying it" % name, node)
 
+    def callee_head(self, f, n):
+        """`@callee T <types> <interface>`: a translated function applied to its Section variables, which become
+        (the same) Section variables of this function: operators, literals, accessors, equality tests, oracles"""
+        q = self.calls[f]
+        if q not in self.done:
+            raise self.err("call of %s = %s, which is not translated before this function" % (f, q), n)
+        callee = self.done[q]
+        if callee.writes or callee.pick_sites or callee.sample_vars or callee.oracle_once & set(callee.used_oracles):
+            raise self.err("call of %s, which has writes / pick functions / impure oracles" % f, n)
+        for nm in callee.tvars:
+            if nm not in self.tnames:
+                raise self.err("call of %s, whose type %s this function's spec does not declare" % (f, nm), n)
+            if nm in self.records and nm in callee.records and dict(self.records[nm]) != dict(callee.records[nm]):
+                pass
+        names = []
+        for name, ty in callee.iface():
+            if name in IFACE_TYPE:
+                self.use(name)
+            elif name.startswith("c_"):
+                self.consts.add((name, dict(callee.consts)[name]))
+            elif name.startswith("f_"):
+                hit = [(r, fl) for (r, fl) in callee.used_acc if callee.acc_name(r, fl) == name]
+                r, fl = hit[0]
+                if dict(self.records.get(r, [])).get(fl) != dict(callee.records[r])[fl]:
+                    raise self.err("call of %s, which reads the field %s of %s: not declared (with the same type) in this "
+                                   "function's spec" % (f, fl, r), n)
+                if (r, fl) not in self.used_acc:
+                    self.used_acc.append((r, fl))
+            elif name.startswith("eqb_"):
+                if name[4:] not in self.used_eq:
+                    self.used_eq.append(name[4:])
+            elif name.startswith("o_"):
+                o = [o for o, _, _ in callee.oracles if callee.oracle_name(o) == name][0]
+                mine = [x for x in self.oracles if x[0] == o]
+                if not mine or mine[0] != [x for x in callee.oracles if x[0] == o][0]:
+                    raise self.err("call of %s, which uses the oracle %s: not declared (with the same type) in this "
+                                   "function's spec" % (f, o), n)
+                if o not in self.used_oracles:
+                    self.used_oracles.append(o)
+            else:
+                raise self.err("call of %s: interface member %s" % (f, name), n)
+            names.append(name)
+        return callee, " ".join(["@" + callee.coq] + (["T"] if callee.uses_T else []) + list(callee.tvars) + names)
+
     def eq_fn(self, t, node):
         """the Coq function for Python's == on values of type t"""
         if t == "T":
@@ -930,8 +978,23 @@ class FnTranslator:
             # sorted(xs, key=lambda x: E) with numeric keys: the STABLE sort by `<` on the keys (insertion from the
             # right, as Base/StableSort.v; for keys on which < is not a strict weak order - NaN - Python's result is
             # unspecified, and so is the meaning of this term)
-            if len(n.args) != 1 or len(n.keywords) != 1 or n.keywords[0].arg != "key" or not isinstance(n.keywords[0].value, ast.Lambda):
-                raise self.err("sorted() other than sorted(xs, key=lambda x: E)", n)
+            kw = n.keywords[0].value if len(n.keywords) == 1 and n.keywords[0].arg == "key" else None
+            if len(n.args) == 1 and isinstance(kw, ast.Call) and dotted(kw.func) in ("functools.cmp_to_key", "cmp_to_key") \
+                    and len(kw.args) == 1 and not kw.keywords and dotted(kw.args[0]) in self.calls \
+                    and dotted(kw.func).split(".")[0] not in env:
+                # sorted(xs, key=cmp_to_key(f)) with a translated comparison f: the only question the sort asks is
+                # K(a) < K(b), i.e. f(a, b) < 0; stable insertion sort with leb a b = not (f(b, a) < 0)
+                xs, t = self.expr(n.args[0], env)
+                if not is_list(t):
+                    raise self.err("sorted() of a value of type %s" % (t,), n)
+                callee, head = self.callee_head(dotted(kw.args[0]), n)
+                pl = callee.param_list()
+                if callee.partial or callee.ret_type != "Z" or [p[1] for p in pl] != [t[1], t[1]] or any(p[2] != "param" for p in pl):
+                    raise self.err("cmp_to_key of a function that is not a total integer-valued comparison of two elements", n)
+                self.ghelpers.add("py_sorted")
+                return "(py_sorted (fun cmp_a cmp_b => negb (Z.ltb (%s cmp_b cmp_a) (0)%%Z)) %s)" % (head, xs), t
+            if len(n.args) != 1 or not isinstance(kw, ast.Lambda):
+                raise self.err("sorted() other than sorted(xs, key=lambda x: E) / key=cmp_to_key(f)", n)
             lam = n.keywords[0].value
             la = lam.args
             if la.vararg or la.kwarg or la.kwonlyargs or la.defaults or getattr(la, "posonlyargs", []) or len(la.args) != 1:
@@ -954,6 +1017,33 @@ class FnTranslator:
             self.use("ltb")
             self.ghelpers.add("py_sorted")
             return "(py_sorted (fun %s %s => negb (ltb %s %s)) %s)" % (a_, b_, kb, ka, xs), t
+        if f in self.samples:
+            # random.sample(xs, k) for a literal k: the elements at k pairwise different indices, each a Section
+            # variable of its own (ValueError when k > len(xs): an index beyond the end; equal indices are not a
+            # behaviour of the function: None)
+            if len(n.args) != 2 or n.keywords or not (isinstance(n.args[1], ast.Constant) and isinstance(n.args[1].value, int)
+                                                      and not isinstance(n.args[1].value, bool) and 1 <= n.args[1].value <= 4):
+                raise self.err("sample function %s other than f(xs, k) with a literal 1 <= k <= 4" % f, n)
+            if f.split(".")[0] in env and env[f.split(".")[0]] != "obj":
+                raise self.err("call through the local name %r" % f.split(".")[0], n)
+            if self.loop_targets:
+                raise self.err("the sample function %s is called inside a loop / lambda" % f, n)
+            a, t = self.expr(n.args[0], env)
+            if not is_list(t):
+                raise self.err("%s of a value of type %s" % (f, t), n)
+            site = self.all_sample_sites.index((n.lineno, n.col_offset)) + 1
+            ks = ["smp_%d_%d" % (site, j + 1) for j in range(n.args[1].value)]
+            for kname in ks:
+                if kname not in self.sample_vars:
+                    self.sample_vars.append(kname)
+            same = ["(Nat.eqb %s %s)" % (ks[i_], ks[j_]) for i_ in range(len(ks)) for j_ in range(i_ + 1, len(ks))]
+            if same:
+                cond = same[-1]
+                for c_ in reversed(same[:-1]):
+                    cond = "(orb %s %s)" % (c_, cond)
+                self.guard(cond)
+            xs = [self.bind_partial("(nth_error %s %s)" % (a, kname)) for kname in ks]
+            return "[%s]" % "; ".join(xs), t
         if f in self.picks:
             # random.choice(xs): the element at an index that is a Section variable of its own for this call site
             # (IndexError on an empty sequence; an index beyond the end is not a behaviour of the function: None)
@@ -1049,24 +1139,12 @@ class FnTranslator:
                     self.used_oracles.append(o)
                 return ("(%s %s)" % (self.oracle_name(o), " ".join(cs)) if cs else self.oracle_name(o)), rt
         if f in self.calls:
-            q = self.calls[f]
-            if q not in self.done:
-                raise self.err("call of %s = %s, which is not translated before this function" % (f, q), n)
-            callee = self.done[q]
-            if getattr(callee, "tvars", None) or callee.writes or not getattr(callee, "uses_T", True):
-                raise self.err("call of %s, which uses record / opaque types or has writes" % f, n)
+            callee, head = self.callee_head(f, n)
             ptypes = callee.param_list()
             if len(args) != len([p for p in ptypes if p[2] == "param"]) or any(p[2] != "param" for p in ptypes):
                 raise self.err("call of %s with an argument list that does not match its parameters" % f, n)
             cs = [self.expr(a, env, t)[0] for a, (_, t, _) in zip(args, ptypes)]
-            for name, ty in callee.iface():
-                if name in IFACE_TYPE:
-                    self.use(name)
-                elif name.startswith("c_"):
-                    self.consts.add((name, dict(callee.consts)[name]))
-                else:
-                    raise self.err("call of %s, which uses oracles" % f, n)
-            code = "(@%s T %s)" % (callee.coq, " ".join([nm for nm, _ in callee.iface()] + cs))
+            code = "(%s)" % " ".join([head] + cs)
             if callee.partial:
                 return self.bind_partial(code), callee.ret_type
             return code, callee.ret_type
@@ -1354,8 +1432,28 @@ class FnTranslator:
         if exits(s.body) + exits(s.orelse) > 1 and rest:
             # more than one path reaches the rest: the rest becomes a definition of its own; locals
             # bound in only one branch are not certainly bound afterwards
-            both = [v for v in env]
-            k2 = self.lift(rest, env, ctx, k)
+            # ... unless every path that falls through assigns them: their types are found by a dry run
+            env_k = dict(env)
+            new = [v for v in assigned_names([s]) if v not in env and self.always_assigns([s], v)]
+            if new:
+                saved = (list(self.defs), self.nloop, self.ncont, self.nfresh)
+                seen = {}
+
+                def probe(e):
+                    for v in new:
+                        if v in seen and seen[v] != e[v]:
+                            raise self.err("local %r has different types on different paths" % v, s)
+                        seen[v] = e[v]
+                    return "tt"
+                try:
+                    self.with_pre(lambda: (self.block(s.body, env, ctx, probe), self.block(s.orelse, env, ctx, probe)))
+                finally:
+                    self.defs, self.nloop, self.ncont, self.nfresh = saved
+                for v in new:
+                    if v in seen:
+                        env_k[v] = seen[v]
+            both = [v for v in env_k]
+            k2 = self.lift(rest, env_k, ctx, k)
             k3 = lambda e, k2=k2: k2({v: e[v] for v in both})
             a = self.block(s.body, env, ctx, k3)
             b = self.block(s.orelse, env, ctx, k3)
@@ -1397,10 +1495,13 @@ class FnTranslator:
             pat, c, textwrap.indent(a, "    "), textwrap.indent(b, "    "), self.block(rest, env2, ctx, k))
 
     def always_assigns(self, stmts, v):
+        """every path that falls out of the end of stmts has assigned v"""
         for s in stmts:
-            if isinstance(s, (ast.Assign, ast.AugAssign)) and v in assigned_names([s]):
+            if isinstance(s, (ast.Assign, ast.AugAssign)) and v in assigned_names([s]) and not mutation_of(s):
                 return True
-            if isinstance(s, ast.If) and self.always_assigns(s.body, v) and self.always_assigns(s.orelse, v):
+            if isinstance(s, ast.If) and exits(s.body) + exits(s.orelse) > 0 \
+                    and (exits(s.body) == 0 or self.always_assigns(s.body, v)) \
+                    and (exits(s.orelse) == 0 or self.always_assigns(s.orelse, v)):
                 return True
         return False
 
@@ -1721,6 +1822,8 @@ class FnTranslator:
                 raise self.err("in-place modification of the parameter / attribute %r (a list the caller shares; "
                                "not listed under `writes`)" % nme, self.node)
         # call sites of the pick functions, numbered in source order
+        self.all_sample_sites = sorted((nd.lineno, nd.col_offset) for nd in ast.walk(self.node)
+                                       if isinstance(nd, ast.Call) and dotted(nd.func) in self.samples)
         self.all_pick_sites = sorted((nd.lineno, nd.col_offset) for nd in ast.walk(self.node)
                                      if isinstance(nd, ast.Call) and dotted(nd.func) in self.picks)
         # writes: `self.x` (an attribute, in-out when it is also listed under attrs), a parameter name (in-out),
